@@ -11,3 +11,5 @@ SPEC["streams"] = [dict(imports="From Ship Require Import Base Conn ConnMon Pair
 SPEC["streams"] += [dict(imports="From Ship Require Import Base RegRace.", case_type="e2e_case", check_fn="check_e2e",
                          drivers=[dict(bin="shipdrv", args=["-prop", "e2e"], n_quick=24, n_thorough=400, timeout=2400)],
                          codes={178: "datagrams_over_real_websocket_not_exactly_once_in_order"})]
+
+SPEC["manifest"]["text"] += " Third stream, over the real transport: two ShipConnections on real ws.WebsocketConnections (loopback websocket), bursts of 100-1500 datagrams of 40 B / 2 KB / 16 KB in both directions while the receiving application blocks until the writers have returned or up to 2.5 s (full socket buffers and write queue); on a connection that stays open each reader's list must equal the other writer's. Payloads of the other two streams also use the words of SHIP messages as keys and values."
